@@ -142,6 +142,23 @@ class ParallelLoopTrans(LoopTrans, metaclass=abc.ABCMeta):
                 raise TransformationError(
                     f"Cannot apply COLLAPSE({collapse}) clause to a loop nest "
                     f"containing only {loop_count} loops")
+            # The collapsed loops must form a rectangular iteration space:
+            # the bounds of an inner loop cannot depend on the variable of
+            # an enclosing loop of the nest.
+            outer_vars = []
+            cnode = node
+            for _ in range(collapse):
+                for bound in cnode.children[0:3]:
+                    for ref in bound.walk(nodes.Reference):
+                        if ref.symbol in outer_vars:
+                            raise TransformationError(
+                                f"Cannot apply COLLAPSE({collapse}) clause to "
+                                f"a loop nest in which the bounds of the "
+                                f"loop over '{cnode.variable.name}' depend "
+                                f"on the outer loop variable "
+                                f"'{ref.symbol.name}'")
+                outer_vars.append(cnode.variable)
+                cnode = cnode.loop_body[0]
 
         # Check that there are no loop-carried dependencies
         if sequential or ignore_dep_analysis:
